@@ -399,6 +399,13 @@ func TestVerifC02(t *testing.T) {
 				script = []int{0, 0, 2, 0, 0, 0, 3, 0, 1, 1, 3, 2, 1, 0, 0, 1, 0, 3}
 				stats["corpus/epoch-spanning-batch"]++
 			}
+			if k == 1 {
+				// second corpus history: a leads, c reports offset 4, b only holds 0..2; b is elected, a and c are cut back
+				// to 2, b publishes three messages which a fetches and c does not; a is elected again without a restart:
+				// what c reported in a's earlier term (4, not beyond a's new log end) says nothing about c's log now
+				script = []int{0, 0, 0, 0, 0, 1, 1, 3, 1, 1, 3, 1, 1, 0, 1, 0, 2, 2, 0, 0, 0, 0, 1, 0, 3, 1, 0, 3, 3, 0, 2, 0, 0}
+				stats["corpus/re-elected-leader-stale-offsets"]++
+			}
 			pop := func(def func() int) int {
 				if len(script) > 0 {
 					x := script[0]
